@@ -1009,10 +1009,10 @@ def main():
         tasks.append(("seq", "paths" if i % 5 else "nopaths", i))
     w = CTX.world("paths")
     nsc = len(scenarios(w))
-    # quick: three race scenarios with every <= 2-pre-emption schedule, three more with every
+    # quick: five race scenarios with every <= 2-pre-emption schedule, one more with every
     # <= 1-pre-emption schedule (+ a few second pre-emptions); thorough: all fourteen in full
     sc_list = [0, 1, 2, 3, 4, 6] if quick else list(range(nsc))
-    sc_full = {0, 2, 3} if quick else set(range(nsc))
+    sc_full = {0, 1, 2, 3, 4} if quick else set(range(nsc))
     a_max = 12 if quick else 30
     for sc in sc_list:
         for first in (0, 1):
